@@ -169,6 +169,8 @@ def run(ctx):
         # the presence check covers both outcomes of from_none(): Some => slot.1 = Some, None => push
         txt = " ".join(Tc.render(Tc.root_streams()[-1])) if Tc.root_streams() else ""
         ok = bool(re.search(r"if ! ⟨proc_macro2::Ident⟩ \. 0 \{ match .*from_none \( \) \{ :: darling :: export :: Some \( __type_fallback \) => \{ ⟨proc_macro2::Ident⟩ \. 1 = :: darling :: export :: Some \( __type_fallback \) ; \} :: darling :: export :: None => \{ __errors \. push \(", txt))
+        # (the same two outcomes as `if let Some(..) = .. { .. } else { .. }`)
+        ok = ok or bool(re.search(r"if ! ⟨proc_macro2::Ident⟩ \. 0 \{ if let :: darling :: export :: Some \( __type_fallback \) = .*from_none \( \) \{ ⟨proc_macro2::Ident⟩ \. 1 = :: darling :: export :: Some \( __type_fallback \) ; \} else \{ __errors \. push \(", txt))
         ctx.ob("C07.S.check-shape", chk.key, "presence check", ok, "template: %s" % txt[:400])
     # P: forwarded-attrs declaration => populator on every path of extractor (F6)
     ext = ctx.fn("darling_core::codegen::attr_extractor::ExtractAttribute::extractor")
